@@ -111,6 +111,39 @@ func txtEmptyList(c *Ctx, r *Report, rule, consequence string) {
 		n++
 		r.check(ret.Results[0] == offset, rule, fmt.Sprintf("packTxt:empty-list-return#%d", n), c.pos(ret.Pos()), "returns offset", "for an empty string list packTxt returns %s instead of the offset it was given: %s", describeValue(ret.Results[0]), consequence)
 	}
+	// ... and needs no room: no refusal and no write on that path (Len() promises the record fits a buffer of exactly
+	// that size)
+	for _, b := range fn.Blocks {
+		empty := false
+		for _, f := range factsAt(fn, b) {
+			bin, ok := f.Atom.(*ssa.BinOp)
+			if !ok {
+				continue
+			}
+			call, isCall := bin.X.(*ssa.Call)
+			k, isK := constIntOf(bin.Y)
+			if isCall && calleeNameSSA(&call.Call) == "builtin.len" && call.Call.Args[0] == txt && isK && k == 0 && ((bin.Op == token.EQL && f.Holds) || (bin.Op == token.NEQ && !f.Holds)) {
+				empty = true
+			}
+		}
+		if !empty {
+			continue
+		}
+		for _, in := range b.Instrs {
+			switch t := in.(type) {
+			case *ssa.Store:
+				if _, isIdx := t.Addr.(*ssa.IndexAddr); isIdx {
+					r.fail(rule, "packTxt:empty-list-write", c.pos(t.Pos()), "an octet is written for an empty string list although the returned offset does not include it: the record needs one octet of room more than Len() says, so PackRR into a buffer of exactly Len(rr) octets (and ToRFC3597, which allocates that) fails for an RDATA-less TXT-like record")
+				}
+			case *ssa.Return:
+				if len(t.Results) == 2 {
+					if kk, isK := t.Results[1].(*ssa.Const); !isK || kk.Value != nil {
+						r.fail(rule, "packTxt:empty-list-refusal", c.pos(t.Pos()), "packing an empty string list can fail for lack of room although nothing is to be written: PackRR into a buffer of exactly Len(rr) octets fails for an RDATA-less TXT-like record")
+					}
+				}
+			}
+		}
+	}
 	if n == 0 {
 		r.undecided(rule, "packTxt", c.pos(fn.Pos()), "no success return on a len(txt) == 0 path found")
 	}
